@@ -8,7 +8,8 @@
    09625d4): the model of the code AS COMMITTED is `true` as first argument of a handler (the
    displaced awaiting/receiving value is released; complete_select forgets the select's process
    sources and releases their stored results; notify_result stores nothing for a key that is no
-   longer awaited; the worker's Err arm fails only an awaiter that still awaits) and
+   longer awaited; the worker's Err arm fails only an awaiter that still awaits) — together with
+   8388832 (a select re-parks, touching nothing, until every awaited process has been reported) — and
    `spawn_process_f46` (one bundled injection); `false` and `spawn_process` model the code before
    the repairs and carry the `_refuted` witnesses.
 
@@ -103,6 +104,12 @@ Theorem C06_refcount_exact_notify_result : forall x awaiter awaited v data x',
   XInv x -> notify_result true x awaiter awaited v data = Val x' -> XInv x' /\ xstable x x'.
 Proof. exact notify_result_XInv. Qed.
 Print Assumptions C06_refcount_exact_notify_result.
+
+(* notify_await_report (8388832): reporting the state of awaited processes moves no reference *)
+Theorem C06_refcount_exact_await_report : forall x awaiter targets,
+  XInv x -> XInv (report_await x awaiter targets) /\ xstable x (report_await x awaiter targets).
+Proof. exact report_await_XInv. Qed.
+Print Assumptions C06_refcount_exact_await_report.
 
 Theorem C06_refcount_exact_notify_spawn : forall x pid pv x',
   refs_of pv = [] -> XInv x -> notify_spawn x pid pv = Val x' -> XInv x' /\ xstable x x'.
@@ -231,13 +238,13 @@ Print Assumptions C06_F45h_repaired.
 Theorem C06_F45_complete_select_forgets :
   match complete_select true (VInt 1) wit_heap
           (mkProc [] [] [wit_frame] false [] None (Some (mkSel 0 0 [VProc 7 0] [] None None))
-                  [(7, Some (VBin 0))]) with
+                  [(7, Some (VBin 0))] []) with
   | MVal None h' p' => rc_at h' 0 = 0 /\ p_await p' = [] /\ pending h' = [0]
   | _ => False
   end /\
   match complete_select false (VInt 1) wit_heap
           (mkProc [] [] [wit_frame] false [] None (Some (mkSel 0 0 [VProc 7 0] [] None None))
-                  [(7, Some (VBin 0))]) with
+                  [(7, Some (VBin 0))] []) with
   | MVal None h' p' => rc_at h' 0 = 1 /\ p_await p' = [(7, Some (VBin 0))]
   | _ => False
   end.
